@@ -204,9 +204,17 @@ func TestProp_RejectForbidden(t *testing.T) {
 			bad, good = w("x", "=", a, "&&", b, "??", c), w("x", "=", "(", a, "&&", b, ")", "??", c)
 		case "assign-binary":
 			op := rapid.SampledFrom([]string{"=", "+=", "-=", "*=", "/=", "%=", "**=", "<<=", ">>=", ">>>=", "&=", "|=", "^=", "&&=", "||=", "??="}).Draw(t, "assignop")
-			lhsop := rapid.SampledFrom([]string{"+", "*", "==", "<", "&&", "|", "-"}).Draw(t, "lhsop")
+			// every binary operator of the language on the left of the assignment, also the ones written as words
+			lhsop := rapid.SampledFrom([]string{"+", "*", "==", "<", "&&", "|", "-", "in", "instanceof", "**", "/", "%", "<<", ">>", ">>>", ">", "<=", ">=", "!=", "===", "!==", "&", "^", "||", "??"}).Draw(t, "lhsop")
 			bad = w("y", lhsop, "z", op, c)
 			good = w("y", lhsop, "(", "z", op, c, ")")
+			if rapid.Bool().Draw(t, "nested") {
+				// the same inside an argument list or behind another assignment
+				bad, good = w("f", "(", "y", lhsop, "z", op, c, ")"), w("f", "(", "y", lhsop, "(", "z", op, c, ")", ")")
+				if rapid.Bool().Draw(t, "assignprefix") {
+					bad, good = w("x", "=", "y", lhsop, "z", op, c), w("x", "=", "y", lhsop, "(", "z", op, c, ")")
+				}
+			}
 		}
 		at := 0
 		_ = at
@@ -240,6 +248,19 @@ func TestProp_RejectRedeclare(t *testing.T) {
 			// the duplicated name is also the function or class expression's own name (which a first declaration may shadow), or a label
 			"x=function dup(){%s;%s;};", "x=function*dup(){%s;%s;};", "x=async function dup(){%s;%s;};", "x=function dup(){{%s;%s;}};", "(class dup{m(){%s;%s;}});", "(class dup{static{%s;%s;}});", "dup:{%s;%s;}", "x={dup(){%s;%s;}};"}).Draw(t, "wrap")
 		rest, _ := jsgen.Render(t, prog.Toks, true)
+		// the scope may be crowded (15-17, 63-65, 255-257 other declarations: sizes at which a scope table could change
+		// its representation), and the duplicated name may have been referred to before its first declaration
+		crowd := ""
+		if k := rapid.SampledFrom([]int{0, 0, 0, 15, 16, 17, 63, 64, 65, 255, 256, 257}).Draw(t, "crowd"); k > 0 {
+			kind := rapid.SampledFrom([]string{"let", "var", "const"}).Draw(t, "crowdkind")
+			for i := 0; i < k; i++ {
+				crowd += fmt.Sprintf("%s crowd%d=%d;", kind, i, i)
+			}
+		}
+		if rapid.Bool().Draw(t, "forwardref") {
+			crowd += "function early(){return dup};"
+		}
+		first = crowd + first
 		bad := fmt.Sprintf(wrap, strings.ReplaceAll(first, "N", "dup"), strings.ReplaceAll(second, "N", "dup")) + rest
 		good := fmt.Sprintf(wrap, strings.ReplaceAll(first, "N", "dup"), strings.ReplaceAll(second, "N", "dup2")) + rest
 		if ast, err := js.Parse(parse.NewInputString(good), o); err != nil || ast == nil {
@@ -249,7 +270,7 @@ func TestProp_RejectRedeclare(t *testing.T) {
 		if err == nil || ast != nil {
 			t.Fatalf("duplicate lexical declaration accepted (%+v):\n%s", o, bad)
 		}
-		ev.Case("reject-redeclare", bad, true, first[:3]+"/"+second[:3])
+		ev.Case("reject-redeclare", bad, true, second[:3], fmt.Sprintf("crowd=%v", crowd != ""))
 	})
 }
 
